@@ -51,7 +51,7 @@ def shard(p):
                 if ws and not ws[0][0].isdigit() and not any(w[0].isdigit() for w in ws):
                     cand.append((" ".join(ws).lower(), True))
         for _ in range(p["n_lit"]):
-            fs = V.rand_factors(rng, nmax=rng.choice([1, 1, 2, 3]))
+            fs = V.rand_factors(rng, nmax=rng.choice([1, 1, 2, 3]) if rng.random() < 0.96 else rng.choice([9, 12, 16]))      # a few literals of 9+ distinct units (seed C13-i)
             xs, x = mag(rng)
             cand.append(("%s %s" % (xs, G.text(fs, rng)), False))
         reps = d.call_many([{"op": "query", "q": t} for t, _ in cand], timeout=600)
